@@ -1,8 +1,11 @@
-"""Apalache runner for the inductive-invariant argument about the reader-writer lock model
-(spec/RWLockInd.tla, spec/RWLockInd.md).
+"""Apalache runner for the inductive-invariant arguments about the two models of check C20:
+the reader-writer lock (spec/RWLockInd.tla, RWLockInd.md) and the lazily built table / in-place rescaling
+(spec/LazyTableInd.tla, LazyTableInd.md; see check_lazytable_inductive below).
 
-    check_rwlock_inductive(workdir, R, W, timeout) -> {ok, steps: [{name, cmd, rc, seconds, outcome, ...}], refuted_selftest}
-    python -m harness.apalache R W        prints that dict as JSON (exit 0 proved / 1 refuted / 2 machinery)
+    check_rwlock_inductive(workdir, R, W, timeout) -> {ok, steps: [{name, cmd, rc, seconds, cpu_s, outcome, ...}], refuted_selftest}
+    check_lazytable_inductive(workdir, N, timeout, binding) -> same shape
+    python -m harness.apalache [--ablate] R W            prints that dict as JSON (exit 0 proved / 1 refuted / 2 machinery)
+    python -m harness.apalache [--ablate] lazytable N
 
 What is run (all output, including Apalache's SANY scratch directories, stays inside `workdir`; no network):
 
@@ -27,7 +30,7 @@ A genuine refutation of base/step/implies is NOT an exception: ok = False and th
 of Apalache's violation1.tla inside workdir) and `cti` (the states, readable after workdir is gone).  Tool trouble
 (timeout, parse or type error, unexpected exit code, binding broken) raises MachineryError.
 """
-import os, re, sys, json, time, glob, subprocess, concurrent.futures as cf
+import os, re, sys, json, time, glob, signal, threading, subprocess, concurrent.futures as cf
 
 from . import tlc
 from .common import SPEC, MachineryError
@@ -73,7 +76,7 @@ def _cti(run_dir):
     if os.path.exists(p):
         with open(p) as f:
             j = json.load(f)
-        vs = j.get("vars", [])
+        vs = list(j.get("params", [])) + list(j.get("vars", []))      # (symbolic constants are part of a counterexample)
         out["states"] = [{v: _un(s[v]) for v in vs if v in s} for s in j.get("states", [])]
     p = os.path.join(run_dir, "violation1.tla")
     if os.path.exists(p):
@@ -85,54 +88,81 @@ def _cti(run_dir):
     return out
 
 
+def _run_measured(cmd, cwd, env, timeout):
+    """-> (exit code, output, wall seconds, cpu seconds of the child incl. its threads) ; None exit code on timeout"""
+    log = os.path.join(cwd, "log_%d_%d.txt" % (os.getpid(), threading.get_ident()))
+    t0 = time.time()
+    with open(log, "w") as f:
+        p = subprocess.Popen(cmd, cwd=cwd, env=env, stdout=f, stderr=subprocess.STDOUT, start_new_session=True)
+    timed_out = []
+
+    def kill():
+        timed_out.append(1)
+        try:
+            os.killpg(p.pid, signal.SIGKILL)
+        except OSError:
+            pass
+    timer = threading.Timer(timeout, kill)
+    timer.start()
+    try:
+        _, status, ru = os.wait4(p.pid, 0)
+    finally:
+        timer.cancel()
+    p.returncode = os.waitstatus_to_exitcode(status)
+    with open(log, errors="replace") as f:
+        out = f.read()
+    os.unlink(log)
+    return (None if timed_out else p.returncode), out, time.time() - t0, ru.ru_utime + ru.ru_stime
+
+
 def run_apalache(name, spec, cfg, args, workdir, timeout, xmx="4g"):
-    """One `apalache-mc check`.  -> step dict; outcome in {"NoError", "Error"}; anything else raises MachineryError."""
+    """One `apalache-mc check` (cfg: path of a TLC cfg file with the constants, or None).
+    -> step dict; outcome in {"NoError", "Error"}; anything else raises MachineryError."""
     out_dir = os.path.join(workdir, "out_" + name)
     tmp = os.path.join(workdir, "tmp")
     os.makedirs(tmp, exist_ok=True)
-    cmd = [APALACHE, "check", "--config=" + cfg, "--out-dir=" + out_dir] + list(args) + [spec]
+    cmd = [APALACHE, "check"] + (["--config=" + cfg] if cfg else []) + ["--out-dir=" + out_dir] + list(args) + [spec]
     env = dict(os.environ)
     env.pop("JAVA_TOOL_OPTIONS", None)
     env["JVM_ARGS"] = "-Xmx" + xmx
     env["TMPDIR"] = tmp              # the launcher makes its SANY scratch directory with mktemp -t
-    t0 = time.time()
     try:
-        p = subprocess.run(cmd, cwd=workdir, env=env, stdout=subprocess.PIPE, stderr=subprocess.STDOUT, timeout=timeout,
-                           text=True, errors="replace")
-    except subprocess.TimeoutExpired:
-        raise MachineryError("Apalache timeout after %ss in step %s: %s" % (timeout, name, " ".join(cmd)))
+        rc, out, wall, cpu = _run_measured(cmd, workdir, env, timeout)
     except OSError as e:
         raise MachineryError("cannot run %s: %s" % (APALACHE, e))
-    secs = round(time.time() - t0, 1)
-    m = re.search(r"The outcome is: (\w+)", p.stdout)
+    if rc is None:
+        raise MachineryError("Apalache timeout after %ss in step %s: %s" % (timeout, name, " ".join(cmd)))
+    m = re.search(r"The outcome is: (\w+)", out)
     outcome = m.group(1) if m else None
-    step = {"name": name, "cmd": "JVM_ARGS=-Xmx%s " % xmx + " ".join(cmd), "rc": p.returncode, "seconds": secs, "outcome": outcome}
-    if (outcome, p.returncode) == ("NoError", 0):
+    step = {"name": name, "cmd": "JVM_ARGS=-Xmx%s " % xmx + " ".join(cmd), "rc": rc, "seconds": round(wall, 1), "cpu_s": round(cpu, 1),
+            "outcome": outcome}
+    if (outcome, rc) == ("NoError", 0):
         return step
-    if (outcome, p.returncode) == ("Error", 12):
+    if (outcome, rc) == ("Error", 12):
         runs = sorted(glob.glob(os.path.join(out_dir, "*", "*", "violation1.tla")))
         if not runs:
-            raise MachineryError("Apalache step %s reports an error without a counterexample:\n%s" % (name, p.stdout[-2000:]))
+            raise MachineryError("Apalache step %s reports an error without a counterexample:\n%s" % (name, out[-2000:]))
         step["counterexample"] = runs[-1]
         step["cti"] = _cti(os.path.dirname(runs[-1]))
         return step
-    raise MachineryError("Apalache step %s failed (exit %s, outcome %s): %s\n%s" % (name, p.returncode, outcome, " ".join(cmd),
-                                                                                    "\n".join(p.stdout.splitlines()[-25:])))
+    raise MachineryError("Apalache step %s failed (exit %s, outcome %s): %s\n%s" % (name, rc, outcome, " ".join(cmd),
+                                                                                    "\n".join(out.splitlines()[-25:])))
 
 
-def _binding(name, cfg_text, workdir, timeout, workers, expect_violated=None):
+def _binding(name, cfg_text, workdir, timeout, workers, expect_violated=None, eq=None, what="RWLockInd.tla is not the same model as RWLock.tla"):
+    eq = eq or EQ
+    mod = os.path.splitext(os.path.basename(eq))[0]
     wd = os.path.join(workdir, name)
-    res = tlc.run(EQ, cfg_text, wd, workers=workers, timeout=timeout)
-    step = {"name": name, "cmd": "tlc MC_RWLockIndEq [%s]" % " ".join(cfg_text.split()), "rc": res.rc, "seconds": round(res.wall, 1),
+    res = tlc.run(eq, cfg_text, wd, workers=workers, timeout=timeout)
+    step = {"name": name, "cmd": "tlc %s [%s]" % (mod, " ".join(cfg_text.split())), "rc": res.rc, "seconds": round(res.wall, 1),
             "states": res.distinct}
     if expect_violated:
         if res.violated != [expect_violated]:
-            raise MachineryError("binding self-test: TLC did not refute %s on MC_RWLockIndEq:\n%s" % (expect_violated, res.clean()[-2000:]))
+            raise MachineryError("binding self-test: TLC did not refute %s on %s:\n%s" % (expect_violated, mod, res.clean()[-2000:]))
         step["outcome"] = "Error"
     else:
         if not res.ok:
-            raise MachineryError("RWLockInd.tla is not the same model as RWLock.tla (TLC, MC_RWLockIndEq, %s):\n%s"
-                                 % (res.violated or "failure", res.clean()[-3000:]))
+            raise MachineryError("%s (TLC, %s, %s):\n%s" % (what, mod, res.violated or "failure", res.clean()[-3000:]))
         step["outcome"] = "NoError"
     return step
 
@@ -195,17 +225,135 @@ def ablation(workdir, R, W, timeout=900, jobs=8, xmx="4g"):
                  "cti": f.result().get("cti")} for (c, n, f) in jobs_]
 
 
+# ======================================================================================================
+# LazyTable
+LT_IND = os.path.join(SPEC, "LazyTableInd.tla")
+LT_EQ = os.path.join(SPEC, "MC_LazyTableIndEq.tla")
+LT_EQ_INVS = "StepEq PropEq ActEq InitEq"
+LT_KMAX = 32                                     # the KMax of the committed spec/LazyTableInd.tla
+LT_CONJUNCTS = ["Coords", "Lists", "Roles", "Tmp", "Loop", "Shared", "Alone", "Final", "Lock", "Seen"]
+LT_PLAN = [
+    ("base", "NoError", ["--cinit=CInitFaithful", "--init=Init", "--inv=IndInv,Safety", "--length=0"]),
+    ("step", "NoError", ["--cinit=CInitFaithful", "--init=IndInit", "--inv=IndInv,Safety,ActSafety", "--length=1"]),
+]
+LT_SELFTESTS = [
+    ("selftest-step-early-publish", "Error", ["--cinit=CInitEarly", "--init=IndInit", "--inv=IndInv", "--length=1"]),
+    ("selftest-step-split-assign", "Error", ["--cinit=CInitSplit", "--init=IndInit", "--inv=IndInv", "--length=1"]),
+    ("selftest-step-torn-read", "Error", ["--cinit=CInitTorn", "--init=IndInit", "--inv=IndInv", "--length=1"]),
+    ("selftest-step-lock-nofinally", "Error", ["--cinit=CInitNoFinally", "--init=IndInit", "--inv=IndInv", "--length=1"]),
+    ("selftest-implies", "Error", ["--cinit=CInitFaithful", "--init=WeakInit", "--inv=Safety", "--length=0"]),
+]
+
+
+def _lt_spec(workdir, K):
+    """spec/LazyTableInd.tla as it is for K = 32; else a copy in workdir with KMax = K and the two literal sequences
+    regenerated (every run re-checks them: LiteralsOK is part of Safety)."""
+    if K == LT_KMAX:
+        return LT_IND
+    with open(LT_IND) as f:
+        s = f.read()
+    s, n1 = re.subn(r"KMax == %d\b" % LT_KMAX, "KMax == %d" % K, s)
+    s, n2 = re.subn(r"Ramp  == <<.*?>>", "Ramp  == <<%s>>" % ", ".join(str(i) for i in range(1, K + 1)), s, flags=re.S)
+    s, n3 = re.subn(r"Zeros == <<.*?>>", "Zeros == <<%s>>" % ", ".join("0" for _ in range(K)), s, flags=re.S)
+    if (n1, n2, n3) != (1, 1, 1):
+        raise MachineryError("LazyTableInd.tla: KMax/Ramp/Zeros not found where expected")
+    d = os.path.join(workdir, "K%d" % K)
+    os.makedirs(d, exist_ok=True)
+    p = os.path.join(d, "LazyTableInd.tla")
+    with open(p, "w") as f:
+        f.write(s)
+    return p
+
+
+def _lt_cfg(N, locked="none", sw=None, all_states=False):
+    flags = tuple("TRUE" if sw == k else "FALSE" for k in ("EARLY_PUBLISH", "SPLIT_ASSIGN", "TORN_READ"))
+    return ('CONSTANTS N = %d  EARLY_PUBLISH = %s  SPLIT_ASSIGN = %s  TORN_READ = %s  LOCKED = "%s"\n' % ((N,) + flags + (locked,))
+            + ("INIT EqSeed\nNEXT EqFan\n" if all_states else "INIT Init\nNEXT Next\n"))
+
+
+def check_lazytable_inductive(workdir, N, timeout=900, binding=True, jobs=8, xmx="4g"):
+    """Unbounded-in-steps safety argument for LazyTable.tla, faithful variant (all deviation switches off), BOTH lock
+    variants LOCKED = "none" and "finally" and EVERY table length 1..N in one Apalache run (N and LOCKED are symbolic constants;
+    the model has one builder thread and atomic reader operations - no thread parameter).
+      base  Init => IndInv /\\ Safety ;  step  IndInv /\\ Next => IndInv' /\\ Safety' /\\ StepsAreEffects /\\ TableNeverShrinks.
+    Self-tests (run at N = 32, the committed spec): EARLY_PUBLISH, SPLIT_ASSIGN, TORN_READ, LOCKED = "nofinally" each break
+    the induction step; IndInv without its list conjuncts does not imply Safety.  binding: TLC, MC_LazyTableIndEq.
+    Same result shape and error policy as check_rwlock_inductive."""
+    if N < 1:
+        raise MachineryError("N must be >= 1")
+    os.makedirs(workdir, exist_ok=True)
+    spec = _lt_spec(workdir, N)
+    t0 = time.time()
+    with cf.ThreadPoolExecutor(max_workers=max(1, jobs)) as ex:
+        futs = [ex.submit(run_apalache, n, spec, None, a, workdir, timeout, xmx) for (n, _, a) in LT_PLAN]
+        futs += [ex.submit(run_apalache, n, LT_IND, None, a, workdir, timeout, xmx) for (n, _, a) in LT_SELFTESTS]
+        if binding:
+            what = "LazyTableInd.tla is not the same model as LazyTable.tla"
+            w = 4 if (os.cpu_count() or 1) >= 16 else 2
+            for lck in ("none", "finally"):
+                futs.append(ex.submit(_binding, "binding-all-" + lck, _lt_cfg(2, lck, all_states=True) + "INVARIANTS %s\n" % LT_EQ_INVS,
+                                      workdir, timeout, w, None, LT_EQ, what))
+            for tag, lck, sw in (("none", "none", None), ("finally", "finally", None), ("nofinally", "nofinally", None),
+                                 ("early", "none", "EARLY_PUBLISH"), ("split", "none", "SPLIT_ASSIGN"), ("torn", "none", "TORN_READ")):
+                futs.append(ex.submit(_binding, "binding-reach-" + tag, _lt_cfg(3, lck, sw) + "INVARIANTS %s\n" % LT_EQ_INVS,
+                                      workdir, timeout, 1, None, LT_EQ, what))
+            futs.append(ex.submit(_binding, "binding-selftest", _lt_cfg(2, "none", all_states=True) + "INVARIANTS WrongEq\n",
+                                  workdir, timeout, 1, "WrongEq", LT_EQ, what))
+        steps = [f.result() for f in futs]
+    want = {n: o for (n, o, _) in LT_PLAN + LT_SELFTESTS}
+    for s in steps:
+        s["expected"] = want.get(s["name"], s["outcome"])
+    main_ = [s for s in steps if s["name"] in ("base", "step")]
+    tests = [s for s in steps if s["name"].startswith("selftest")]
+    return {"ok": all(s["outcome"] == "NoError" for s in main_),
+            "refuted_selftest": all(s["outcome"] == "Error" for s in tests),
+            "N": "every table length 1..%d" % N, "LOCKED": ["none", "finally"], "wall_s": round(time.time() - t0, 1),
+            "cpu_s": round(sum(s.get("cpu_s", 0) for s in steps), 1),
+            "proved": "Init => IndInv; IndInv /\\ Next => IndInv'; IndInv => ReaderOK /\\ PubEmptyOrComplete /\\ CoordsOldOrNew /\\ AloneOK /\\ "
+                      "LocIsPrefix /\\ FinalOK /\\ LockFreeWhenOver; IndInv /\\ Next => StepsAreEffects /\\ TableNeverShrinks",
+            "steps": steps}
+
+
+def ablation_lazytable(workdir, timeout=900, jobs=8, xmx="4g"):
+    """Why each conjunct of LazyTableInd!IndInv is there: drop it, re-run the step and the implication (LazyTableInd.md)."""
+    os.makedirs(workdir, exist_ok=True)
+    with open(LT_IND) as f:
+        ind_text = f.read()
+    jobs_ = []
+    with cf.ThreadPoolExecutor(max_workers=jobs) as ex:
+        for c in LT_CONJUNCTS:
+            d = os.path.join(workdir, "ab_" + c)
+            os.makedirs(d, exist_ok=True)
+            with open(os.path.join(d, "LazyTableInd.tla"), "w") as f:
+                f.write(ind_text)
+            with open(os.path.join(d, "Ab.tla"), "w") as f:
+                f.write("---- MODULE Ab ----\nEXTENDS LazyTableInd\nAbInv == TypeOK /\\ %s\nAbInit == Arbitrary /\\ AbInv\n====\n"
+                        % " /\\ ".join(x for x in LT_CONJUNCTS if x != c))
+            for n, a in (("step", ["--init=AbInit", "--inv=AbInv", "--length=1"]),
+                         ("implies", ["--init=AbInit", "--inv=Safety,ActSafety", "--length=1"])):
+                jobs_.append((c, n, ex.submit(run_apalache, n, os.path.join(d, "Ab.tla"), None, ["--cinit=CInitFaithful"] + a, d, timeout, xmx)))
+        return [{"without": c, "check": n, "outcome": f.result()["outcome"], "seconds": f.result()["seconds"], "cpu_s": f.result()["cpu_s"],
+                 "cti": f.result().get("cti")} for (c, n, f) in jobs_]
+
+
 def main(argv):
     from .common import Scratch
     ab = "--ablate" in argv
-    argv = [a for a in argv if a != "--ablate"]
-    if len(argv) != 2:
-        print("usage: python -m harness.apalache [--ablate] R W", file=sys.stderr)
-        return 2
-    R, W = int(argv[0]), int(argv[1])
+    nobind = "--no-binding" in argv
+    argv = [a for a in argv if a not in ("--ablate", "--no-binding")]
+    tmo = int(os.environ.get("VERIF_APALACHE_TIMEOUT", "900"))
     try:
-        with Scratch("apalache_rwlock") as wd:
-            res = ablation(wd, R, W) if ab else check_rwlock_inductive(wd, R, W, timeout=int(os.environ.get("VERIF_APALACHE_TIMEOUT", "900")))
+        if len(argv) == 2 and argv[0] == "lazytable":
+            N = int(argv[1])
+            with Scratch("apalache_lazytable") as wd:
+                res = ablation_lazytable(wd, timeout=tmo) if ab else check_lazytable_inductive(wd, N, timeout=tmo, binding=not nobind)
+        elif len(argv) in (2, 3) and argv[-1].isdigit() and argv[-2].isdigit() and argv[0] in ("rwlock", argv[-2]):
+            R, W = int(argv[-2]), int(argv[-1])
+            with Scratch("apalache_rwlock") as wd:
+                res = ablation(wd, R, W, timeout=tmo) if ab else check_rwlock_inductive(wd, R, W, timeout=tmo, binding=not nobind)
+        else:
+            print("usage: python -m harness.apalache [--ablate] [--no-binding] ([rwlock] R W | lazytable N)", file=sys.stderr)
+            return 2
     except MachineryError as e:
         print("MACHINERY: %s" % e, file=sys.stderr)
         return 2
